@@ -209,6 +209,10 @@ func (vc *VC) atomicFunc(st *State, name string, call *ast.CallExpr) Val {
 	case strings.HasPrefix(name, "Store"):
 		v := vc.evalScalar(st, call.Args[1])
 		vc.storePlace(st, p, sc(v.T, s))
+		if p.kind == pHeap && tokenFields[p.owner+p.path] {
+			// ownership token: storing nil takes it, storing the buffer pointer hands it back
+			vc.heapSet(st, "gh.token", SBool, eq(v.T, "nil"))
+		}
 		return &TupleV{}
 	case strings.HasPrefix(name, "CompareAndSwap"):
 		old := read()
@@ -216,6 +220,9 @@ func (vc *VC) atomicFunc(st *State, name string, call *ast.CallExpr) Val {
 		n := vc.evalScalar(st, call.Args[2])
 		okc := vc.define("cas", SBool, eq(old, o.T))
 		vc.storePlace(st, p, sc(ite(okc, n.T, old), s))
+		if p.kind == pHeap && tokenFields[p.owner+p.path] {
+			vc.heapSet(st, "gh.token", SBool, ite(okc, eq(n.T, "nil"), vc.heapGet(st, "gh.token", SBool)))
+		}
 		return sc(okc, SBool)
 	case strings.HasPrefix(name, "Add"):
 		old := read()
